@@ -70,6 +70,13 @@ def generate(prop, seed, tier):
             o = {"op": "fit", "slot": s, "letter": S.pick(["A", "B", "C"]), "n": S.pick([800, 1200]), "dseed": S.sub("fd", k), "fail_at": S.pick([None, None, 0, 1, 2])}
             ops.append(o)
             continue
+        if sl.get("transformed") and S.chance(0.35):
+            # evaluation / cache-creating operation / the same evaluation again
+            first = {"op": S.pick(["draw_int", "t_cond_sample", "t_iform"] if S.chance(0.8) else ["pdf"]), "slot": s, "aseed": S.sub("a", k), "as_list": False}
+            ops.append(first)
+            ops.append({"op": "t_empirical", "slot": s, "aseed": S.sub("b", k), "as_list": False})
+            ops.append(dict(first, repeat_of=len(ops) - 2))
+            continue
         if sl.get("transformed"):
             name = S.wpick(T_OPS)
         else:
@@ -79,6 +86,13 @@ def generate(prop, seed, tier):
             if sl["kind"] == "direct2" and name in ("plot_dep", "plot_hist", "plot_mq", "slice"):
                 name = S.pick(["pdf", "iform", "hdc", "draw_int", "plot_contour"])
         ops.append({"op": name, "slot": s, "aseed": S.sub("a", k), "as_list": S.chance(0.3) and not sl.get("transformed")})
+        # the same evaluation again later in the run (hidden caches, pyplot state, ...)
+        evals = [(i, o) for i, o in enumerate(ops[:-1]) if "aseed" in o and "repeat_of" not in o]
+        if evals and S.chance(0.3):
+            i, o = S.pick(evals)
+            r = dict(o)
+            r["repeat_of"] = i
+            ops.append(r)
     return {"engine": NAME, "property": prop, "seed": seed, "slots": slots, "ops": ops}
 
 
@@ -401,6 +415,9 @@ def execute_universe(scen, only_slot=None, run=None):
                 continue
             seams.pin_global(core.h64(scen["seed"], "create", i))
             slots[i] = Slot(spec)
+        pins = {}
+        fit_epoch = {i: 0 for i in slots}
+        epoch_at = {}
         snaps = {i: snapshot(s.model) for i, s in slots.items()} if checking else {}
         base_names = {i: snaps[i][1]["__names__"] for i in snaps}
         glob0 = module_globals()
@@ -419,6 +436,7 @@ def execute_universe(scen, only_slot=None, run=None):
             local = slot.local
             slot.local += 1
             if op["op"] == "fit":
+                fit_epoch[s] += 1
                 seams.pin_global(_pin_for(scen, s, local))
                 exc, fired = do_fit(slot, op)
                 digests[k] = core.digest([snapshot(slot.model)[0], type(exc).__name__ if exc else None])
@@ -451,6 +469,10 @@ def execute_universe(scen, only_slot=None, run=None):
                 continue
             # ---- evaluation op, executed twice under the same pinned global-RNG state ----
             pin = _pin_for(scen, s, local)
+            if op.get("repeat_of") is not None and op["repeat_of"] in pins:
+                pin = pins[op["repeat_of"]]  # same global-RNG state as the first time
+            pins[k] = pin
+            epoch_at[k] = fit_epoch[s]
             results = []
             exc = None
             reps = 2 if checking else 1
@@ -476,6 +498,13 @@ def execute_universe(scen, only_slot=None, run=None):
                 run.count("evaluations_executed", reps)
                 if exc is not None:
                     run.count("evaluation_raised:" + type(exc).__name__)
+                ro = op.get("repeat_of")
+                if ro is not None and digests[ro] is not None and epoch_at.get(ro) == fit_epoch[s]:
+                    run.count("probe:evaluation-repeated-later")
+                    if digests[ro] != results[0]:
+                        between = [(o["op"], o.get("slot")) for o in scen["ops"][ro + 1 : k]]
+                        run.violate("I3-not-repeatable-later", f"{op['op']}", {"slot": s, "kind": slot.spec["kind"], "transformed": bool(slot.spec.get("transformed")), "first_at": ro, "again_at": k, "operations_between": between, "step": k})
+                        return digests
                 if len(results) == 2 and results[0] != results[1]:
                     run.violate("I3-not-repeatable", f"{op['op']}", {"slot": s, "kind": slot.spec["kind"], "transformed": bool(slot.spec.get("transformed")), "step": k})
                     return digests
@@ -575,13 +604,27 @@ def execute(prop, scen):
     return run
 
 
+def _drop_op(scen, i):
+    c = copy.deepcopy(scen)
+    del c["ops"][i]
+    out = []
+    for o in c["ops"]:
+        ro = o.get("repeat_of")
+        if ro is not None:
+            if ro == i:
+                o = {k_: v_ for k_, v_ in o.items() if k_ != "repeat_of"}
+            elif ro > i:
+                o = dict(o, repeat_of=ro - 1)
+        out.append(o)
+    c["ops"] = out
+    return c
+
+
 def shrink_candidates(prop, scen):
     ops = scen["ops"]
     for i in range(len(ops)):
         if len(ops) > 1:
-            c = copy.deepcopy(scen)
-            del c["ops"][i]
-            yield c
+            yield _drop_op(scen, i)
     used = sorted({o["slot"] for o in ops if "slot" in o})
     if len(used) < len(scen["slots"]) and used:
         c = copy.deepcopy(scen)
@@ -619,5 +662,5 @@ def describe(prop):
             "the snapshot walks __dict__ of every object reachable from the model (partials, dicts, lists), floats by hex, arrays by digest; TransformedModel._sample is a cache allowed to go None -> array once",
             "unseeded operations may depend on the global RNG state only, which the simulator pins per step (slot-local), so repeatability and projection equivalence are decidable",
         ],
-        "probes": ["fit-between-evaluations"],
+        "probes": ["fit-between-evaluations", "evaluation-repeated-later"],
     }
